@@ -1028,6 +1028,7 @@ class SortValues(BaseSetIndexSortValues):
             _divisions_by,
             _divisions_by._meta._constructor(divisions).sort_values(),
             ascending=self._divisions_ascending,
+            na_position=self.na_position,
         )
         assigned = Assign(self.frame, "_partitions", partitions)
         shuffled = Shuffle(
@@ -1046,12 +1047,16 @@ class SortValues(BaseSetIndexSortValues):
     def _simplify_up(self, parent, dependents):
         from dask_expr._expr import Filter, Head, Tail
 
-        if isinstance(parent, Head):
+        # NFirst / NLast sort with the default na_position and sort function
+        plain_sort = (
+            self.na_position == "last" and self.operand("sort_function") is None
+        )
+        if isinstance(parent, Head) and plain_sort:
             return NFirst(
                 self.frame, n=parent.n, _columns=self.by, ascending=self.ascending
             )
 
-        if isinstance(parent, Tail):
+        if isinstance(parent, Tail) and plain_sort:
             return NLast(
                 self.frame, n=parent.n, _columns=self.by, ascending=self.ascending
             )
